@@ -466,6 +466,7 @@ func runC03(c *core.Ctx) {
 		runBase(c, r, i, b)
 	}
 	runCreateLeg(c)
+	runCertLevel(c)
 }
 
 // sign produces the genuine signatures of a base case: independent signer first, zcrypto's second.
